@@ -193,6 +193,32 @@ def observe(model, viol, site, probes, extra_tree):
                     viol('pairing', site, 'prefix_errors reports errors for trees that differ only in insertion order (namespace %r, mode %s)' % (ns, want_eff))
             except Exception as e:  # noqa: BLE001
                 viol('pairing', site, 'pairing operation raised %s: %s (namespace %r, mode %s)' % (type(e).__name__, e, ns, want_eff))
+        # ---- constructors on small / nested collections, and sub-treespecs of an ordered dict node
+        leafspec = optree.treespec_leaf()
+        for n_keys in (0, 1, 2):
+            ks = PROBE_KEYS_INS[:n_keys]
+            for nm, made in (('treespec_dict', optree.treespec_dict({k: leafspec for k in ks}, namespace=ns)),
+                             ('treespec_defaultdict', optree.treespec_defaultdict(int, {k: leafspec for k in ks}, namespace=ns)),
+                             ('from_collection(dict)', optree.treespec_from_collection({k: leafspec for k in ks}, namespace=ns)),
+                             ('from_collection(defaultdict)', optree.treespec_from_collection(defaultdict(int, {k: leafspec for k in ks}), namespace=ns)),
+                             ('treespec_list([treespec_dict])', optree.treespec_list([optree.treespec_dict({k: leafspec for k in ks}, namespace=ns)], namespace=ns).child(0)),
+                             ('treespec_tuple((treespec_defaultdict,))', optree.treespec_tuple((optree.treespec_defaultdict(int, {k: leafspec for k in ks}, namespace=ns),), namespace=ns).child(0))):
+                want = ks if want_eff else sorted(ks)
+                if made.entries() != want:
+                    viol('order-mismatch', site, '%s with %d key(s) in namespace %r gives entries %r; mode model says %r' % (nm, n_keys, ns, made.entries(), want))
+                ref_tree = ({k: 0 for k in ks} if 'default' not in nm else defaultdict(int, {k: 0 for k in ks}))
+                ref = optree.tree_structure(ref_tree, namespace=ns)
+                # constructors are only required to produce the right ORDER (and a treespec equal to the flattened one);
+                # whether they also record the mode's namespace is not part of the property (they do not for small dicts)
+                if made != ref:
+                    viol('order-mismatch', site, '%s with %d key(s) in namespace %r is %r but flattening the same collection gives %r' % (nm, n_keys, ns, made, ref))
+        outer = [dict(PROBE_DICT), (defaultdict(int, PROBE_DICT),)]
+        ospec = optree.tree_structure(outer, namespace=ns)
+        for got_sub, direct in ((ospec.child(0), optree.tree_structure(outer[0], namespace=ns)), (ospec.children()[1].child(0), optree.tree_structure(outer[1][0], namespace=ns)),
+                                (ospec.child(0).one_level(), optree.tree_structure(outer[0], namespace=ns))):
+            if got_sub != direct or repr(got_sub) != repr(direct) or got_sub.entries() != direct.entries() or got_sub.namespace != direct.namespace or \
+                    list(got_sub.unflatten([1, 2, 3])) != list(direct.unflatten([1, 2, 3])):
+                viol('order-mismatch', site, 'sub-treespec %r of a dict-bearing treespec differs from flattening the child directly %r (namespace %r, mode %s)' % (got_sub, direct, ns, want_eff))
         # nested dicts below the root follow the mode too
         nested = [{'b': 1, 'a': 2}, ({'d': 3, 'c': 4},), U.NT1({'f': 5, 'e': 6}, None)]
         nl = optree.tree_leaves(nested, namespace=ns)
@@ -208,6 +234,10 @@ def observe(model, viol, site, probes, extra_tree):
             ch, meta, entries = h.flatten_func(tree)[:3]
             if list(entries) != want_keys or list(ch) != [PROBE_DICT[k] for k in want_keys]:
                 viol('registry-lookup', site, 'register_pytree_node.get(%s, namespace=%r) flattens with keys %r; mode model says %r' % (cls.__name__, ns, list(entries), want_keys))
+            rebuilt = h.unflatten_func(meta, ch)
+            if type(rebuilt) is not cls or dict(rebuilt) != PROBE_DICT or (cls is defaultdict and rebuilt.default_factory is not int) or \
+                    (want_eff and list(rebuilt) != PROBE_KEYS_INS):
+                viol('registry-lookup', site, 'the %s handler from register_pytree_node.get(namespace=%r) does not rebuild its own output: %r' % (cls.__name__, ns, rebuilt))
             table = optree.register_pytree_node.get(namespace=ns)
             if list(table[cls].flatten_func(tree)[2]) != want_keys:
                 viol('registry-lookup', site, 'register_pytree_node.get(namespace=%r)[%s] does not reflect the current mode' % (ns, cls.__name__))
